@@ -187,10 +187,11 @@ def check(ctx: Ctx) -> None:
         for s in stores:
             ob.violation(flr, s, "the channel id is re-assigned inside _local_receive")
         ch = [c for c in repo.calls_in(flr) if callee_attr(c) == "get" and "_channels" in unparse(c.func)]
-        cb = [n for n in repo.own_nodes(flr) if isinstance(n, ast.Subscript) and "_callbacks" in unparse(n.value)]
+        cb = [unparse(n.slice) for n in repo.own_nodes(flr) if isinstance(n, ast.Subscript) and "_callbacks" in unparse(n.value)]
+        cb += [unparse(c.args[0]) for c in repo.calls_in(flr) if callee_attr(c) == "get" and "_callbacks" in unparse(c.func) and c.args]
         if len(ch) != 1 or unparse(ch[0].args[0]) != idp:
             ob.violation(flr, flr.node, "the channel is not looked up by the received id")
-        if len(cb) != 1 or unparse(cb[0].slice) != idp:
+        if len(cb) != 1 or cb[0] != idp:
             ob.violation(flr, flr.node, "the callback is not looked up by the received id")
         chv = unparse(repo.parent(ch[0]).targets[0]) if ch and isinstance(repo.parent(ch[0]), ast.Assign) else None
         q = [n for n in repo.own_nodes(flr) if isinstance(n, ast.Attribute) and n.attr == "_items"]
@@ -246,9 +247,10 @@ def check(ctx: Ctx) -> None:
 
     with ctx.obligation("C02.f", "exactly-one-delivery") as ob:
         cfg = build_cfg(repo, flr, Oracle(repo, flr))
+        from ..util import xtext
         cbn = None
         for n in repo.own_nodes(flr):
-            if isinstance(n, ast.Assign) and isinstance(n.targets[0], ast.Tuple) and "_callbacks" in unparse(n.value):
+            if isinstance(n, ast.Assign) and isinstance(n.targets[0], ast.Tuple) and "_callbacks" in xtext(repo, flr, n.value):
                 cbn = unparse(n.targets[0].elts[0])
         ob.require(cbn is not None, "callback destructuring not found in _local_receive")
         npaths = 0
